@@ -38,6 +38,8 @@ Clauses(r) ==
       c08 == s.n => (\A e \in FS0(s) : IF e.k = "dir" THEN sameKind(e.p) ELSE unchanged(e.p)) /\ (collides => ex # 0)
       c13 == s.L => /\ (ex = 0 => (\A e \in av : e.k = "link" => e \in View(FS0(s))) /\ av = expView)
                     /\ ((~rej /\ \E v \in vis : v.err /\ v.k = "none") => ex # 0)
+                    \* obligation form: without injected faults, a tree whose links all resolve IS copied (links followed)
+                    /\ ((~r.faulted /\ ~rej /\ ref.ok) => ex <= 0)
       modeAt(es, p) == LET S == { es[i].m : i \in { j \in 1..Len(es) : es[j].p = p } } IN IF S = {} THEN -1 ELSE CHOOSE m \in S : TRUE
       nodeOk(v) ==           \* same type and device number, source permission bits limited by the umask
         LET q == Resolve(exp, v.to, FALSE)
